@@ -275,6 +275,15 @@ def case_reflection(ctx, cfg):
     if not proj_eq(t.array, want, 1e-12):
         ctx.fail("reflection:matrix", "reflection", inputs, want, t.array)
         return
+    # the mirror is a projective object: any representative (negative, purely imaginary, complex multiple - Line.mirror
+    # and angle_bisectors return such representatives) defines the same reflection
+    for lam in (-2.0, 0.5, 1j, 1 + 2j):
+        Hs = (G.Line if dim == 2 else G.Plane)(np.array(h, dtype=complex if isinstance(lam, complex) else float) * lam)
+        ts, e = ctx.call(G.reflection, Hs)
+        ctx.trace()
+        if e is not None or not proj_eq(ts.array, want, 1e-12):
+            ctx.fail(f"reflection:matrix:representative-times-{'complex' if isinstance(lam, complex) else 'real'}", "reflection", {**inputs, "representative_factor": lam}, want, e if e is not None else ts.array)
+            return
     t2, e = ctx.call(lambda: t * t)
     if e is not None or not proj_eq(t2.array, np.eye(dim + 1), 1e-12):
         ctx.fail("reflection:involution", "t*t", inputs, "identity", e if e is not None else t2.array)
